@@ -7,7 +7,7 @@ from typing import Dict, FrozenSet, List, Optional, Set, Tuple
 from ..cfg import cfg_of
 from ..flow import EMPTY, BasePolicy, TagFlow, path_of
 from ..model import AnalysisError, FunctionInfo, bind_args
-from ..quant import Normaliser, show, top_disjuncts
+from ..quant import absorb_nan_guard, Normaliser, show, top_disjuncts
 from ..roles import roles_of
 from ..terms import call_name, canon, const_num, guard_of, match_clamp_all, norm_stmt, state_key
 from .c08 import make_rename, mask_resolver, ROLES5
@@ -116,7 +116,7 @@ class ValPolicy(BasePolicy):
             return state
         from .c08 import inline_mask_helper
 
-        f = Normaliser(mask_resolver(self.prog, self.fn, [k for k, v in self.roles.items() if v in ROLES5], test), self.rename, inline=inline_mask_helper(self.prog, self.fn)).quant(test, True)
+        f = absorb_nan_guard(Normaliser(mask_resolver(self.prog, self.fn, [k for k, v in self.roles.items() if v in ROLES5], test), self.rename, inline=inline_mask_helper(self.prog, self.fn)).quant(test, True))
         ds = {show(d) for d in top_disjuncts(f)}
         inv = {v: k for k, v in self.roles.items()}
         if "ANY[x0 < lb]" in ds and "ANY[ub < x0]" in ds and "x0" in inv:
